@@ -13,7 +13,7 @@ import CopVerif.Gen.Effects
                                         (1 = the checker cannot exclude a write to that parameter's object or to an object held inside it)
     * `effects flat <i>`             → `ok {p:<x> | a:<x>:<y> | f:<x> | w:<x>}` the flat statement set
     * `effects session <i> <j> …`    → `ok <accept|reject> {<var>}` may-written parameters of the union
-    * `plot <2|3> <scatter|compare> <ncols> <col…> <nreq|-1> <req…> <nreal> <cells…> [<nsynth> <cells…>]`
+    * `plot <2|3> <scatter|compare> <titled 0|1> <ncols> <col…> <nreq|-1> <req…> <nreal> <cells…> [<nsynth> <cells…>]`
                                      → `ok <#traces> {<Real|Synthetic> <#points> <cells…>}` | `err <kind>` -/
 namespace CopVerif.Driver
 open CopVerif CopVerif.IO CopVerif.Model.Effects CopVerif.Model.Plot
@@ -88,7 +88,8 @@ def showTraces3 (r : Except Err (List (Label × List (String × String × String
 
 def plot (ws : List String) : String :=
   match ws with
-  | dim :: kind :: ncols :: rest =>
+  | dim :: kind :: titledW :: ncols :: rest =>
+    let titled := titledW == "1"
     match ncols.toNat? with
     | none => "bad-op"
     | some nc =>
@@ -111,15 +112,15 @@ def plot (ws : List String) : String :=
               let real : Frame String := ⟨cols, realRows⟩
               match kind with
               | "scatter" =>
-                if dim == "2" then showTraces2 (scatter2d real columns)
-                else if dim == "3" then showTraces3 (scatter3d real columns) else "bad-op"
+                if dim == "2" then showTraces2 (scatter2d real columns titled)
+                else if dim == "3" then showTraces3 (scatter3d real columns titled) else "bad-op"
               | "compare" =>
                 match parseRows nc rest with
                 | none => "bad-op"
                 | some (synthRows, _) =>
                   let synth : Frame String := ⟨cols, synthRows⟩
-                  if dim == "2" then showTraces2 (compare2d real synth columns)
-                  else if dim == "3" then showTraces3 (compare3d real synth columns) else "bad-op"
+                  if dim == "2" then showTraces2 (compare2d real synth columns titled)
+                  else if dim == "3" then showTraces3 (compare3d real synth columns titled) else "bad-op"
               | _ => "bad-op"
         | [] => "bad-op"
   | _ => "bad-op"
